@@ -29,6 +29,16 @@ func Root() string {
 	return "/verif"
 }
 
+// OutRoot is where evidence/ and replays/ are written (VERIF_OUT; default Root()).
+// Mutation trials (VERIF_REPO) write to a scratch dir so /verif/evidence stays
+// the evidence of the real tree.
+func OutRoot() string {
+	if v := os.Getenv("VERIF_OUT"); v != "" {
+		return v
+	}
+	return Root()
+}
+
 // ---------------------------------------------------------------------------
 // PRNG: splitmix64 as a rand.Source64; streams are derived by hashing labels.
 
@@ -414,7 +424,7 @@ func (r *Run) Finish(cov Coverage) {
 	known := loadKnown()
 	newV := 0
 	printedKnown := map[string]bool{}
-	repDir := filepath.Join(Root(), "replays", r.ID)
+	repDir := filepath.Join(OutRoot(), "replays", r.ID)
 	sigs := make([]string, 0)
 	for i := range r.violations {
 		v := &r.violations[i]
@@ -492,8 +502,8 @@ func (r *Run) Finish(cov Coverage) {
 		"known_findings_seen": len(printedKnown),
 	}
 	b, _ := json.MarshalIndent(ev, "", " ")
-	os.MkdirAll(filepath.Join(Root(), "evidence"), 0755)
-	ioutil.WriteFile(filepath.Join(Root(), "evidence", r.ID+".json"), b, 0644)
+	os.MkdirAll(filepath.Join(OutRoot(), "evidence"), 0755)
+	ioutil.WriteFile(filepath.Join(OutRoot(), "evidence", r.ID+".json"), b, 0644)
 
 	fmt.Printf("%s %s seed=%d: evaluations=%d distinct_nontrivial=%d violations(new)=%d known=%d inconclusive=%d wall=%.1fs\n",
 		r.ID, r.Tier, r.Seed, cov.Evaluations, cov.DistinctNontrivial, newV, len(printedKnown), len(r.inconcl), time.Since(r.start).Seconds())
